@@ -39,7 +39,7 @@ POOL = {
     'number': [0.0, 1.5, -2.0, 3, 1e15],
     'string': ['', 'a', '10'],
     'datetime': [datetime.datetime(2020, 1, 1), datetime.date(2020, 1, 2), datetime.datetime(2020, 1, 1, 5, 0, 0, 250000, tzinfo=TZ5)],
-    'array': [[], [1.0], ['a', 2.0]],
+    'array': [[], [2.0], [1.0, 1.0], ['a', 2.0]],
     'object': [{}, {'a': 1.0}, {'a': 1.0, 'b': [1.0]}],
     'function': [gv.host_fn_a, gv.host_fn_b, len],
     'regex': list(gv.REGEXES),
@@ -294,10 +294,17 @@ def check_alias(alias, target, args):
         got = ('ok', impl.bs.evaluate_expression(expr, {'globals': glob, 'logFn': elog.append, 'debug': True}, None, True))
     except Exception as e:  # pylint: disable=broad-except
         got = (type(e).__name__, str(e)[:80])
+    # the same call with no options object at all (the documented default): arguments come from the locals
+    try:
+        got_none = ('ok', impl.bs.evaluate_expression(expr, None, dict(zip(names, copy.deepcopy(args))), True))
+    except Exception as e:  # pylint: disable=broad-except
+        got_none = (type(e).__name__, str(e)[:80])
     glob2 = dict(zip(names, copy.deepcopy(args)))
     slog = []
     out = impl.run_source('return %s(%s)' % (target, ', '.join(names)), glob2, slog, debug=True)
     want = ('ok', out.value) if out.kind == 'ok' else (type(out.exc).__name__, (out.message or '')[:80])
+    if alias not in NONDETERMINISTIC and (got_none[0] != got[0] or (got[0] == 'ok' and not same(got_none[1], got[1]))):
+        raise Violation('%s%r evaluates to %r without an options object but to %r with one' % (alias, tuple(args), got_none, got), d, 'alias-no-options:' + alias)
     if alias in NONDETERMINISTIC:
         if got[0] == 'ok' and want[0] == 'ok' and ref_type(got[1]) == ref_type(want[1]) and \
                 (got[1] is None) == (want[1] is None):
